@@ -71,3 +71,17 @@ Theorem C05_nested_window_restored : forall (A B : Type) (enc : dframe A -> list
   n_fl n = [] -> p_rq (n_in n) = [] -> p_credits (n_in n) = [] -> p_swin (n_in n) = WI.
 Proof. exact nested_window_restored. Qed.
 Print Assumptions C05_nested_window_restored.
+
+(* code shape, regenerated from the source on every run (see theories/SkelSender.v) *)
+From Coq Require Import String.
+From GT Require Import SkelSender.
+From GTgen Require Import Params.
+Local Open Scope string_scope.
+Theorem C05_sender_send_shape : skel_defaultSender_send =
+  ["call mu.Lock"; "defer call mu.Unlock"; "call currentWindow.Load"; "select"; "recv windowUpdates"; "recv ctx.Done()"; "call ctx.Err"; "end"; "call currentWindow.CompareAndSwap"; "call sendFunc"].
+Proof. exact defaultSender_send_shape. Qed.
+Print Assumptions C05_sender_send_shape.
+Theorem C05_sender_update_shape : skel_defaultSender_updateWindow =
+  ["call currentWindow.Add"; "select"; "trysend windowUpdates"; "end"].
+Proof. exact defaultSender_updateWindow_shape. Qed.
+Print Assumptions C05_sender_update_shape.
